@@ -15,6 +15,7 @@ type Val struct {
 	Sort string    // SMT sort when Ty == nil
 	Tuple []Val    // for multi-result calls
 	Clo *closureInfo
+	DynTy types.Type // static type of the value an interface value was made from (MakeInterface)
 }
 
 type LocKind int
